@@ -11,20 +11,29 @@ var expectedProbes = map[string][]string{}
 var props = []PropSpec{
 	{
 		ID: "C18", Pkg: ".", Scenario: "C18", Level: "exploration",
-		Quick:    Tier{Runs: 6000, WallS: 60},
-		Thorough: Tier{Runs: 300000, WallS: 600},
-		Rule: "one run = one job set (0..5 jobs, each succeeds or fails after a tape-chosen number of yields / simulated sleeps), a concurrency limit in {-1,0,1..5}, live or cancelled context, under one seeded schedule of real FirstSuccess; distinct = distinct (job-set digest, schedule signature); non-trivial = at least one context switch",
-		Real: []string{"first-success.go (FirstSuccess, JobGroup, ErrorSlice)"},
-		Stub: []string{"simerrgroup replaces golang.org/x/sync/errgroup (same API/semantics on simulator primitives)", "jobs are synthetic closures"},
+		Quick:       Tier{Runs: 6000, WallS: 60},
+		Thorough:    Tier{Runs: 300000, WallS: 600},
+		Rule:        "one run = one job set (0..5 jobs, each succeeds or fails after a tape-chosen number of yields / simulated sleeps), a concurrency limit in {-1,0,1..5}, live or cancelled context, under one seeded schedule of real FirstSuccess; distinct = distinct (job-set digest, schedule signature); non-trivial = at least one context switch",
+		Real:        []string{"first-success.go (FirstSuccess, JobGroup, ErrorSlice)"},
+		Stub:        []string{"simerrgroup replaces golang.org/x/sync/errgroup (same API/semantics on simulator primitives)", "jobs are synthetic closures"},
 		Assumptions: commonAssumptions,
 	},
 	{
 		ID: "C17", Pkg: "./split-car-fetcher", Scenario: "C17", Level: "exploration",
-		Quick:    Tier{Runs: 4000, WallS: 60},
-		Thorough: Tier{Runs: 200000, WallS: 600},
-		Rule: "one run = one immutable remote file (1..64 bytes dense, up to 70000 sparse), 1..4 concurrent readers with up to 10 operations each over {ReadAt, GetRange, SetRange(true bytes), DeleteOldEntries, Sleep} on overlapping/nested/adjacent/zero-length/out-of-range ranges, the cache GC goroutine on the simulated clock, a per-run subset of remote fault kinds inside a fault window, then reads after the window; distinct = distinct (scenario digest, schedule signature, fired-fault multiset); non-trivial = a context switch or a fired fault",
-		Real: []string{"range-cache/range-cache.go", "split-car-fetcher/remote-file.go (NewRemoteHTTPFileAsIoReaderAt, ReadAt, remoteReadAt, retryExpotentialBackoff)", "split-car-fetcher/fetcher.go GetContentSizeWithHeadOrZeroRange", "net/http.Client above the RoundTripper"},
-		Stub: []string{"dsim/simhttp RoundTripper + object store replaces TCP and the remote web server (cut at http.RoundTripper; NewHTTPClient overridden to use it)"},
+		Quick:       Tier{Runs: 4000, WallS: 60},
+		Thorough:    Tier{Runs: 200000, WallS: 600},
+		Rule:        "one run = one immutable remote file (1..64 bytes dense, up to 70000 sparse), 1..4 concurrent readers with up to 10 operations each over {ReadAt, GetRange, SetRange(true bytes), DeleteOldEntries, Sleep} on overlapping/nested/adjacent/zero-length/out-of-range ranges, the cache GC goroutine on the simulated clock, a per-run subset of remote fault kinds inside a fault window, then reads after the window; distinct = distinct (scenario digest, schedule signature, fired-fault multiset); non-trivial = a context switch or a fired fault",
+		Real:        []string{"range-cache/range-cache.go", "split-car-fetcher/remote-file.go (NewRemoteHTTPFileAsIoReaderAt, ReadAt, remoteReadAt, retryExpotentialBackoff)", "split-car-fetcher/fetcher.go GetContentSizeWithHeadOrZeroRange", "net/http.Client above the RoundTripper"},
+		Stub:        []string{"dsim/simhttp RoundTripper + object store replaces TCP and the remote web server (cut at http.RoundTripper; NewHTTPClient overridden to use it)"},
 		Assumptions: commonAssumptions,
+	},
+	{
+		ID: "C06", Pkg: "./gsfa", Scenario: "C06", Level: "exploration", Env: map[string]string{"VERIF_REAL_RULE": "1"},
+		Quick:       Tier{Runs: 3000, WallS: 90, ShrinkS: 40},
+		Thorough:    Tier{Runs: 60000, WallS: 900, ShrinkS: 120},
+		Rule:        "one run = one push history (1..6 addresses, or enough distinct addresses to cross the periodic-flush population; a focus address with k*B+delta entries; duplicate keys; slots landing on the %500 trigger; pauses that let the flusher's 1 s timer fire) through the real GsfaWriter with its background flusher under one seeded schedule, Close, then GsfaReader.Get for every address compared with the reversed push model; thresholds shrunk per run through knobs (batch size, channel capacity, tmpBuf, flush population) or real (about 4% of runs, counts 1/999..1001/1999..2001/3000/5000, and directed batches whose record length is 126..129 and 16382..16385); distinct = distinct (history digest, schedule signature); non-trivial = at least one context switch",
+		Real:        []string{"gsfa/gsfa-write.go", "gsfa/gsfa-read.go", "gsfa/linkedlog", "gsfa/manifest", "gsfa/pop-rank.go", "indexes/index-pubkey-to-offset-and-size.go", "compactindexsized", "tooling/compress.go", "real files in a per-run scratch directory"},
+		Stub:        []string{"hashmap preallocation hint (1_000_000) lowered to 1024 in every simulated run (no semantic effect)"},
+		Assumptions: append([]string{"a violation found with shrunken thresholds is reported only if it reproduces with every threshold at its real value (real-constants rule)"}, commonAssumptions...),
 	},
 }
